@@ -10,16 +10,20 @@ ROOT=${SEEDROOT:-/tmp/seed}; OUT=$ROOT/out/$ID; WT=$ROOT/$ID
 FEAT=""
 grep -qiE "features?[^a-z]*(serde|uuid|storage-event|derive)|--features" $OUT/demo$N.rs 2>/dev/null && FEAT='--features serde,uuid_entity,storage-event-control,derive'
 grep -q "specs_derive\|specs-derive\|derive(ConvertSaveload\|derive(Component" $OUT/demo$N.rs 2>/dev/null && FEAT='--features serde,uuid_entity,storage-event-control,derive'
+DEMOFLAGS=""
+grep -q "specs_verif" $OUT/demo$N.rs 2>/dev/null && DEMOFLAGS="--cfg specs_verif"
+if [ -z "${SEED_SKIP_CONFIRM:-}" ]; then
 cd $WT || exit 2
 git checkout -q -- . ; rm -f tests/seed_demo.rs
 git apply $OUT/patch$N.diff || { echo "CONFIRM: patch does not apply"; exit 2; }
 T=$(cargo test --workspace --offline 2>&1 | grep -E "^test result" | awk '{p+=$4; f+=$6} END {print p" passed "f" failed"}')
 echo "CONFIRM: existing suite with change: $T"
 cp $OUT/demo$N.rs tests/seed_demo.rs
-if cargo test --offline $FEAT --test seed_demo >$OUT/demo$N.with.log 2>&1; then echo "CONFIRM: demo PASSES with change (BAD)"; else echo "CONFIRM: demo fails with change (ok): $(grep -E 'panicked|test result|error\[' $OUT/demo$N.with.log | head -2 | tr '\n' ' ' | cut -c1-200)"; fi
+if RUSTFLAGS="$DEMOFLAGS" cargo test --offline $FEAT --test seed_demo >$OUT/demo$N.with.log 2>&1; then echo "CONFIRM: demo PASSES with change (BAD)"; else echo "CONFIRM: demo fails with change (ok): $(grep -E 'panicked|test result|error\[' $OUT/demo$N.with.log | head -2 | tr '\n' ' ' | cut -c1-200)"; fi
 git apply -R $OUT/patch$N.diff
-if cargo test --offline $FEAT --test seed_demo >$OUT/demo$N.without.log 2>&1; then echo "CONFIRM: demo passes without change (ok)"; else echo "CONFIRM: demo FAILS without change (BAD)"; fi
+if RUSTFLAGS="$DEMOFLAGS" cargo test --offline $FEAT --test seed_demo >$OUT/demo$N.without.log 2>&1; then echo "CONFIRM: demo passes without change (ok)"; else echo "CONFIRM: demo FAILS without change (BAD)"; fi
 rm -f tests/seed_demo.rs; git checkout -q -- .
+fi
 cd /repo || exit 2
 git diff --quiet || { echo "repo dirty"; exit 2; }
 git apply $OUT/patch$N.diff || { echo "patch does not apply to /repo"; exit 2; }
